@@ -167,6 +167,8 @@ struct Gate {
 struct FetchLog {
     gates: Vec<Gate>,
     started: [usize; NPAIRS],
+    /// distinct tokio task ids that invoked the fetcher, per pair (= workers that looked up)
+    ids: [Vec<Option<tokio::task::Id>>; NPAIRS],
     polls: usize,
 }
 
@@ -197,6 +199,9 @@ impl Shared {
     }
     fn started(&self, pair: usize) -> usize {
         self.log.lock().unwrap().started[pair]
+    }
+    fn worker_ids(&self, pair: usize) -> usize {
+        self.log.lock().unwrap().ids[pair].len()
     }
     fn n_gates(&self) -> usize {
         self.log.lock().unwrap().gates.len()
@@ -286,6 +291,10 @@ impl PathFetcher for Fetcher {
             let id = {
                 let mut l = self.shared.log.lock().unwrap();
                 l.started[pair] += 1;
+                let tid = tokio::task::try_id();
+                if tid.is_none() || !l.ids[pair].contains(&tid) {
+                    l.ids[pair].push(tid);
+                }
                 l.gates.push(Gate { pair, state: GateState::Pending, waker: None });
                 l.gates.len() - 1
             };
@@ -364,45 +373,58 @@ enum PState {
     Stopped,
 }
 
+/// A window opens with the first request for a pair that is certainly unmanaged (never requested,
+/// or `stop_managing_paths` since the last request) and closes when a lookup started inside the
+/// window finishes, or at stop / drop. All requests inside one window are "concurrent first
+/// requests for the same pair".
 #[derive(Clone, Copy, Debug)]
 struct Window {
-    base_started: usize,
-    base_gate: usize,
     after_stop: bool,
     requests: u32,
+    /// worker tasks spawned by the requests of this window (exact; single-thread tier only)
+    spawned: usize,
+    ids_at_open: usize,
+    base_gate: usize,
+    /// upper bound of the workers spawned for EARLIER windows of this pair that had not yet
+    /// performed their initial lookup when this window opened (a stopped worker still does it)
+    debt: usize,
 }
 
 struct PairModel {
     state: PState,
     window: Option<Window>,
+    windows_before: usize,
+    /// exact number of worker tasks spawned for this pair (single-thread tier)
+    spawned_total: usize,
 }
 
 struct Book {
     pm: [PairModel; NPAIRS],
+    exact: bool,
     /// largest number of concurrent first requests seen in one window
     max_concurrent_first: u32,
 }
 
 impl Book {
-    fn new() -> Self {
-        Book {
-            pm: [
-                PairModel { state: PState::Unrequested, window: None },
-                PairModel { state: PState::Unrequested, window: None },
-            ],
-            max_concurrent_first: 0,
-        }
+    fn new(exact: bool) -> Self {
+        let pm = || PairModel { state: PState::Unrequested, window: None, windows_before: 0, spawned_total: 0 };
+        Book { pm: [pm(), pm()], exact, max_concurrent_first: 0 }
     }
-    fn on_request(&mut self, p: usize, sh: &Shared) {
+    fn before_request(&mut self, p: usize, sh: &Shared) {
+        let exact = self.exact;
         let m = &mut self.pm[p];
         match m.state {
             PState::Unrequested | PState::Stopped => {
+                let ids = sh.worker_ids(p);
                 m.window = Some(Window {
-                    base_started: sh.started(p),
-                    base_gate: sh.n_gates(),
                     after_stop: m.state == PState::Stopped,
                     requests: 1,
+                    spawned: 0,
+                    ids_at_open: ids,
+                    base_gate: sh.n_gates(),
+                    debt: if exact { m.spawned_total.saturating_sub(ids) } else { m.windows_before },
                 });
+                m.windows_before += 1;
                 m.state = PState::Requested;
             }
             PState::Requested => {
@@ -413,6 +435,28 @@ impl Book {
             }
         }
     }
+    /// single-thread tier: `spawned` = number of tasks the request just spawned
+    fn after_request(&mut self, p: usize, spawned: usize) -> CheckResult {
+        let m = &mut self.pm[p];
+        m.spawned_total += spawned;
+        if let Some(w) = &mut m.window {
+            w.spawned += spawned;
+            let kind = if w.after_stop { "after-stop" } else { "fresh-pair" };
+            ensure!(
+                w.spawned <= 1,
+                format!("double-worker:{kind}"),
+                "{} worker tasks spawned for pair {p} by {} concurrent first request(s) (expected exactly 1)",
+                w.spawned,
+                w.requests
+            );
+            ensure!(
+                w.spawned == 1,
+                format!("no-worker:{kind}"),
+                "no worker task spawned for pair {p} by its first request"
+            );
+        }
+        Ok(())
+    }
     fn on_stop(&mut self, p: usize) {
         self.pm[p].window = None;
         self.pm[p].state = PState::Stopped;
@@ -422,7 +466,8 @@ impl Book {
             m.window = None;
         }
     }
-    /// a gate of pair p has been opened: the first lookup of the window is finishing
+    /// a gate of pair p has been opened: if that lookup was started inside the window, the first
+    /// lookup of the window is finishing
     fn on_complete(&mut self, p: usize, gate: usize) {
         if let Some(w) = self.pm[p].window {
             if gate >= w.base_gate {
@@ -430,34 +475,34 @@ impl Book {
             }
         }
     }
-    /// at any time: at most one fetcher invocation per window
+    /// at any time: at most one NEW worker task invokes the fetcher per window
     fn check_at_most_one(&self, sh: &Shared) -> CheckResult {
         for (p, m) in self.pm.iter().enumerate() {
             if let Some(w) = m.window {
-                let n = sh.started(p) - w.base_started;
+                let n = sh.worker_ids(p) - w.ids_at_open;
                 ensure!(
-                    n <= 1,
-                    if w.after_stop { "double-worker:after-stop" } else { "double-worker:fresh-pair" },
-                    "{n} fetcher invocations for pair {p} before the first lookup of {} concurrent first request(s) finished (expected exactly 1 worker)",
-                    w.requests
+                    n <= 1 + w.debt,
+                    if w.after_stop { "double-lookup:after-stop" } else { "double-lookup:fresh-pair" },
+                    "{n} distinct worker tasks invoked the fetcher for pair {p} before the first lookup of {} concurrent first request(s) finished (expected 1, plus at most {} initial lookup(s) of earlier, stopped workers)",
+                    w.requests,
+                    w.debt
                 );
             }
         }
         Ok(())
     }
-    /// at quiescence: the one worker has started its lookup
-    fn check_exactly_one(&self, sh: &Shared) -> CheckResult {
+    /// single-thread tier at quiescence with the manager alive: every spawned worker has invoked
+    /// the fetcher (the initial lookup is unconditional), and nobody else has
+    fn check_settled(&self, sh: &Shared) -> CheckResult {
         self.check_at_most_one(sh)?;
         for (p, m) in self.pm.iter().enumerate() {
-            if let Some(w) = m.window {
-                let n = sh.started(p) - w.base_started;
-                ensure!(
-                    n == 1,
-                    if w.after_stop { "no-worker:after-stop" } else { "no-worker:fresh-pair" },
-                    "{n} fetcher invocations for pair {p} at quiescence after {} first request(s) (expected exactly 1 worker)",
-                    w.requests
-                );
-            }
+            let ids = sh.worker_ids(p);
+            ensure!(
+                ids == m.spawned_total,
+                "lookup-attribution",
+                "pair {p}: {} worker task(s) spawned by requests but {ids} distinct task(s) invoked the fetcher at quiescence",
+                m.spawned_total
+            );
         }
         Ok(())
     }
@@ -601,10 +646,12 @@ impl St<'_> {
             self.obs.label("race:new-waiter-vs-exit-path");
             self.nontrivial = true;
         }
-        self.book.on_request(p, &self.shared);
+        self.book.before_request(p, &self.shared);
         self.waiters.push(Waiter { pair: p, fut: Some(fut), wakes: Arc::new(WakeCount(AtomicUsize::new(0))), wakes_at_last_poll: 0 });
         let k = self.waiters.len() - 1;
+        let alive0 = alive_tasks();
         let r = self.poll_waiter(k)?;
+        self.book.after_request(p, alive_tasks() - alive0)?;
         if r.is_none() && inflight_before > 0 {
             self.obs.label("waiter-registered-while-fetch-in-flight");
             self.nontrivial = true;
@@ -642,8 +689,11 @@ impl St<'_> {
                 let p = pair_of(*p);
                 if let Some(mgr) = self.mgr.as_ref() {
                     let w = world();
-                    self.book.on_request(p, &self.shared);
-                    if let Some(path) = mgr.cached_path(w.src, w.dst[p], w.t0) {
+                    self.book.before_request(p, &self.shared);
+                    let alive0 = alive_tasks();
+                    let got = mgr.cached_path(w.src, w.dst[p], w.t0);
+                    self.book.after_request(p, alive_tasks() - alive0)?;
+                    if let Some(path) = got {
                         validate_result(p, &Ok(path), self.obs)?;
                     }
                 }
@@ -664,7 +714,9 @@ impl St<'_> {
             }
             Action::Settle => {
                 self.settle().await?;
-                self.book.check_exactly_one(&self.shared)?;
+                if self.mgr.is_some() {
+                    self.book.check_settled(&self.shared)?;
+                }
             }
             Action::Stop(p) => {
                 let p = pair_of(*p);
@@ -702,7 +754,7 @@ async fn run_st(case: &Case, obs: &mut Obs, shared: Arc<Shared>) -> CheckResult 
         mgr: Some(mgr),
         shared: shared.clone(),
         waiters: Vec::new(),
-        book: Book::new(),
+        book: Book::new(true),
         obs,
         nontrivial: false,
         exit_unsettled: [false; NPAIRS],
@@ -714,7 +766,9 @@ async fn run_st(case: &Case, obs: &mut Obs, shared: Arc<Shared>) -> CheckResult 
 
     // ---- final phase 1: every lookup finishes, runtime quiescent => every waiter is released ----
     st.settle().await?;
-    st.book.check_exactly_one(&shared)?;
+    if st.mgr.is_some() {
+        st.book.check_settled(&shared)?;
+    }
     let mut round = 0;
     loop {
         let pend = shared.pending_gates();
@@ -983,8 +1037,8 @@ fn case_strategy(max_len: usize, skewed: bool) -> impl Strategy<Value = Case> {
 }
 
 fn run_st_random(ctx: &Ctx) {
-    ctx.run_prop("st-random-short", ctx.tier.pick(20_000, 400_000), || case_strategy(14, false), check_st);
-    ctx.run_prop("st-random-long", ctx.tier.pick(12_000, 300_000), || case_strategy(60, false), check_st);
+    ctx.run_prop("st-random-short", ctx.tier.pick(60_000, 1_000_000), || case_strategy(14, false), check_st);
+    ctx.run_prop("st-random-long", ctx.tier.pick(40_000, 600_000), || case_strategy(60, false), check_st);
 }
 
 // ---------------------------------------------------------------------------------------------
@@ -1031,7 +1085,7 @@ fn mt_spawn_waiter(mgr: &Mgr, p: usize, pre: u32, barrier: Option<Arc<AtomicUsiz
 
 async fn run_mt(case: &Case, obs: &mut Obs, shared: Arc<Shared>) -> CheckResult {
     let mut mgr = Some(build_manager(case, &shared)?);
-    let mut book = Book::new();
+    let mut book = Book::new(false);
     let mut waiters: Vec<MtWaiter> = Vec::new();
     let skew = |i: usize| -> u32 { case.skew.get(i).copied().unwrap_or(0) as u32 };
     let mut nontrivial = false;
@@ -1044,7 +1098,7 @@ async fn run_mt(case: &Case, obs: &mut Obs, shared: Arc<Shared>) -> CheckResult 
                     if shared.inflight(p) > 0 {
                         nontrivial = true;
                     }
-                    book.on_request(p, &shared);
+                    book.before_request(p, &shared);
                     waiters.push(mt_spawn_waiter(m, p, skew(ai), None));
                 }
             }
@@ -1054,7 +1108,7 @@ async fn run_mt(case: &Case, obs: &mut Obs, shared: Arc<Shared>) -> CheckResult 
                     let k = (*k).clamp(2, 6) as usize;
                     let barrier = Arc::new(AtomicUsize::new(k));
                     for j in 0..k {
-                        book.on_request(p, &shared);
+                        book.before_request(p, &shared);
                         // tiny per-task skew so that the tasks do not all hit the same instruction
                         waiters.push(mt_spawn_waiter(m, p, (skew(ai) as usize * j % 64) as u32, Some(barrier.clone())));
                     }
@@ -1075,7 +1129,7 @@ async fn run_mt(case: &Case, obs: &mut Obs, shared: Arc<Shared>) -> CheckResult 
                 let p = pair_of(*p);
                 if let Some(m) = mgr.as_ref() {
                     let w = world();
-                    book.on_request(p, &shared);
+                    book.before_request(p, &shared);
                     if let Some(path) = m.cached_path(w.src, w.dst[p], w.t0) {
                         validate_result(p, &Ok(path), obs)?;
                     }
@@ -1243,8 +1297,10 @@ fn run_mt_tier(ctx: &Ctx) {
     if ctx.tier == vcore::Tier::Quick {
         return;
     }
-    ctx.run_prop("mt-shaped", 60_000, mt_shaped_strategy, check_mt);
-    ctx.run_prop("mt-random", 40_000, || case_strategy(30, true), check_mt);
+    // fixed work; the override exists only for the sensitivity runs described in notes/C20.md
+    let scale = |n: u32| std::env::var("C20_MT_CASES").ok().and_then(|s| s.parse().ok()).unwrap_or(n);
+    ctx.run_prop("mt-shaped", scale(60_000), mt_shaped_strategy, check_mt);
+    ctx.run_prop("mt-random", scale(40_000), || case_strategy(30, true), check_mt);
     for m in MT_INCONCLUSIVE.lock().unwrap().iter().take(5) {
         ctx.inconclusive(m.clone());
     }
